@@ -152,6 +152,9 @@ func (descriptor *pmtDescriptor) decode() string {
 	case EBP:
 		return fmt.Sprintf("EBP (%d)", descriptor.tag)
 	case STREAM_IDENTIFIER:
+		if len(descriptor.data) == 0 {
+			return fmt.Sprintf("Stream Identifier (%d)", descriptor.tag)
+		}
 		return fmt.Sprintf("Stream Identifier (%d): %v", descriptor.tag, descriptor.data[0])
 	case EXTENSION:
 		return fmt.Sprintf("TTML Subtitling (language code=%s)", descriptor.DecodeTTMLIso639LanguageCode())
@@ -173,14 +176,14 @@ func (descriptor *pmtDescriptor) IsEBPDescriptor() bool {
 
 // Return the decoded Maximum_bitrate in units of 50 bytes per second
 func (descriptor *pmtDescriptor) DecodeMaximumBitRate() uint32 {
-	if descriptor.IsMaximumBitrateDescriptor() {
+	if descriptor.IsMaximumBitrateDescriptor() && len(descriptor.data) >= 3 {
 		return uint32(descriptor.data[0]&0x1f)<<16 | uint32(descriptor.data[1])<<8 | uint32(descriptor.data[2])
 	}
 	return 0
 }
 
 func (descriptor *pmtDescriptor) DecodeIso639LanguageCode() string {
-	if LANGUAGE == descriptor.tag {
+	if LANGUAGE == descriptor.tag && len(descriptor.data) >= 3 {
 		return string(descriptor.data[0:3])
 	}
 	return ""
@@ -240,11 +243,17 @@ func (descriptor *pmtDescriptor) IsIFrameProfile() bool {
 		indx := uint8(0)
 		for indx < num_partitions {
 			indx++
+			if offset >= len(descriptor.data) {
+				return false // truncated descriptor
+			}
 			EBP_data_explicit_flag := 1 == uint8((descriptor.data[offset]&0x80)>>7)
 			representation_id_flag := 1 == uint8((descriptor.data[offset]&0x04)>>6)
 
 			if EBP_data_explicit_flag {
 				offset++
+				if offset >= len(descriptor.data) {
+					return false // truncated descriptor
+				}
 				if 0 == EBP_distance_width_minus_1 {
 					EBP_distance := uint8(descriptor.data[offset])
 					return 1 == EBP_distance
@@ -288,7 +297,7 @@ func (descriptor *pmtDescriptor) IsDolbyATMOS() bool {
 		language_flag_2 := false
 
 		start := uint8(2)
-		if bsid_flag {
+		if bsid_flag && len(descriptor.data) >= 3 {
 			language_flag = 1 == uint8((descriptor.data[start]&0x80)>>7)   // 1 bit
 			language_flag_2 = 1 == uint8((descriptor.data[start]&0x40)>>6) // 1 bit
 			start++
